@@ -155,7 +155,7 @@ def fixedModel : Bool := true
 
 /-! ## Part (ii): traces of the real supervisor
 
-* `tr <id> name=<scenario> init=<ns> max=<ns>`
+* `tr <id> name=<scenario> init=<ns> max=<ns> lat=<ns>` (`lat` = the longest scripted exit latency of the scenario)
 * `ev <id> k=<n> t=<µs> e=<kind> iid=<i> dn=<dn> ...` with kinds
   `enter`, `run names= res=ok|err|panic`, `sig s=0|1 res=ok|panic`, `ctxdone`, `exit how=nil|ctx|other panic=0|1 live=0|1`,
   `settled ok= why=`, `window ..` (cancel-inside-the-back-off-window scenarios), `cancelreq`, `stopped ok=`, `quiesced`, `fin`
@@ -163,7 +163,7 @@ def fixedModel : Bool := true
 
 Two things happen per trace.  (a) The Spec clauses of C18 are evaluated on the event log itself (no model):
 `two-instances-live`, `done-restarted`, `restart-before-backoff`, `group-not-cancelled`, `not-restarted`,
-`not-stopped`, `start-after-stop`.  (b) Acceptance: the set of model states compatible with the log so far is
+`not-stopped`, `start-after-stop`, `service-live-after-stop`.  (b) Acceptance: the set of model states compatible with the log so far is
 carried along; between two logged events the processor may have taken any number of hidden steps
 (`died`, `gc`, and `kill` once the harness has cancelled the supervisor context).  An event that no state
 allows is a `diff`.
@@ -195,8 +195,11 @@ structure St where
   id : String := ""
   name : String := ""
   P : Params := {}
+  lat : Nat := 0                      -- longest scripted exit latency (ns)
   evs : Array Ev := #[]
   cancelReq : Bool := false
+  completedRootAtStop : Bool := false   -- when the supervisor context was cancelled the root runnable had signalled Done and returned nil
+  liveBelowCompleted : Bool := false    -- ... and some service was running below a node whose runnable had signalled Done and returned nil
   tCancel : Nat := 0
   capped : Bool := false
   recs : List Rec := []               -- every instance, newest first
@@ -211,6 +214,13 @@ structure St where
 def setV (st : St) (v : String) : St :=
   match st.verdict with
   | some w => if w.startsWith "diff" && v.startsWith "spec" then { st with verdict := some v } else st
+  | none => { st with verdict := some v }
+
+/-- `service-live-after-stop` names the instance that never returned; it replaces the harness-flag based `not-stopped`
+of the same trace (same fact, more specific) and, like every Spec verdict, a `diff`. -/
+def setVLive (st : St) (v : String) : St :=
+  match st.verdict with
+  | some w => if w.startsWith "diff" || w.startsWith s!"spec {st.id} not-stopped " then { st with verdict := some v } else st
   | none => { st with verdict := some v }
 
 /-- search budget (visited (event index, model state) pairs) per trace; beyond it the acceptance check is inconclusive -/
@@ -375,16 +385,39 @@ def specEv (st : St) (kind : String) (iid : Nat) (dn : DN) (t : Nat) (fs : List 
         let d := match st.recs.find? (fun r => r.iid = i) with | some r => showDN r.dn | none => "?"
         setV st s!"spec {id} group-not-cancelled {who} died but the context of {d} (instance {i}), which belongs to it or to its group, was never cancelled (scenario {st.name})"
       | [] => st
-  | "cancelreq" => { st with cancelReq := true, tCancel := t, recs := st.recs.map fun r => if r.exited then { r with tainted := true } else r }
+  | "cancelreq" =>
+    let completed (d : DN) : Bool := match latest st d with
+      | some r => r.exited && r.sigDone && r.how = "nil"
+      | none => false
+    let below := st.recs.any fun r => !r.exited && (st.recs.any fun a => properPrefix a.dn r.dn && completed a.dn)
+    { st with cancelReq := true, tCancel := t, completedRootAtStop := completed [], liveBelowCompleted := below,
+              recs := st.recs.map fun r => if r.exited then { r with tainted := true } else r }
   | "stopped" =>
     if (kv fs "ok") != some "1" then setV st s!"spec {id} not-stopped services were still running long after the supervisor context was cancelled ({(kv fs "live").getD "?"} left)" else st
   | "quiesced" => { st with quiesced := true }
+  | "fin" =>
+    -- "cancelling the supervisor's context stops every service", on the log itself: the trace ends long after the
+    -- cancellation (longer than the longest exit latency of the scenario plus a full second - a back-off cannot keep
+    -- an instance running, only delay a start, which `start-after-stop` covers) and an instance that entered has
+    -- still not returned: it never stops.
+    if !st.cancelReq then st else
+    let live := (st.recs.filter fun r => !r.exited).reverse       -- oldest first
+    let waited := t - st.tCancel                                  -- µs
+    match live with
+    | [] => st
+    | r :: _ =>
+      if waited * 1000 ≤ st.lat + 1000000000 then st else
+      let names := ", ".intercalate (live.map fun x => s!"{showDN x.dn}#{x.iid}")
+      let anc := match st.recs.find? (fun a => properPrefix a.dn r.dn && a.exited && a.sigDone && a.how = "nil" && (latest st a.dn).map (·.iid) == some a.iid) with
+        | some a => s!"; {showDN a.dn} above it had signalled Done and returned nil"
+        | none => ""
+      setVLive st s!"spec {id} service-live-after-stop {showDN r.dn} (instance {r.iid}) was still running when the trace ended, {waited / 1000} ms after the supervisor context had been cancelled (longest exit latency in this scenario: {st.lat / 1000000} ms); it {if r.sawCtx then "had seen its context cancelled but did not return" else "never saw its context cancelled"}{anc}; {live.length} instance(s) never returned: {names} (scenario {st.name})"
   | _ => st
 
 def traceLine (st : St) (op : String) (id : String) (fs : List String) : St × List String :=
   if op = "tr" then
     let P : Params := { initial := (kvNat fs "init").getD 0, max := (kvNat fs "max").getD 0 }
-    ({ id := id, name := (kv fs "name").getD "?", P := P }, [])
+    ({ id := id, name := (kv fs "name").getD "?", P := P, lat := (kvNat fs "lat").getD 0 }, [])
   else if op = "end" then
     -- acceptance: is there an interleaving of hidden processor steps under which the model yields this log?
     let crAt := (st.evs.findIdx? (fun e => e.kind = "cancelreq")).getD st.evs.size
@@ -427,6 +460,8 @@ structure St where
   trEvents : Nat := 0
   trCapped : Nat := 0
   trMaxWorlds : Nat := 0
+  trCompletedRoot : Nat := 0
+  trBelowCompleted : Nat := 0
 
 def bump (d : List (String × Nat)) (k : String) : List (String × Nat) :=
   if d.any (·.1 = k) then d.map fun (a, n) => if a = k then (a, n + 1) else (a, n) else d ++ [(k, 1)]
@@ -500,7 +535,9 @@ def step (st : St) (line : String) : St × List String :=
       let (t, outs) := Trace.traceLine st.tr op id fs
       let st := { st with tr := t }
       let st := if op = "end" then { st with traces := st.traces + 1, trEvents := st.trEvents + t.events,
-                                             trCapped := st.trCapped + (if t.capped then 1 else 0), trMaxWorlds := max st.trMaxWorlds t.searched } else st
+                                             trCapped := st.trCapped + (if t.capped then 1 else 0), trMaxWorlds := max st.trMaxWorlds t.searched,
+                                             trCompletedRoot := st.trCompletedRoot + (if t.completedRootAtStop then 1 else 0),
+                                             trBelowCompleted := st.trBelowCompleted + (if t.liveBelowCompleted then 1 else 0) } else st
       (st, outs)
     else simLine st op id fs line
   | _ => (st, [])
@@ -508,7 +545,8 @@ def step (st : St) (line : String) : St × List String :=
 def fin (st : St) : List String :=
   (st.dist.map fun (k, n) => s!"stat branch_{k} {n}") ++
   [s!"stat sim_cases {st.cases}", s!"stat sim_ops {st.ops}", s!"stat sim_gc_resets {st.gcResets}", s!"stat sim_panics {st.panics}",
-   s!"stat traces {st.traces}", s!"stat trace_events {st.trEvents}", s!"stat trace_search_capped {st.trCapped}", s!"stat trace_max_search_nodes {st.trMaxWorlds}"]
+   s!"stat traces {st.traces}", s!"stat trace_events {st.trEvents}", s!"stat trace_search_capped {st.trCapped}", s!"stat trace_max_search_nodes {st.trMaxWorlds}",
+   s!"stat trace_stop_with_completed_root {st.trCompletedRoot}", s!"stat trace_stop_live_below_completed {st.trBelowCompleted}"]
 
 def run (h : IO.FS.Stream) : IO Unit := loop h ({} : St) step fin
 
